@@ -49,6 +49,13 @@ def probes_for(pid, fn):
     out = []
     for key in (fn, pid, '*'):
         out += p.get(key, [])
+    # a scenario recorded as a known finding is reported as KNOWN-FINDING by vrun, never as a fresh violation
+    try:
+        kf = json.load(open(os.path.join(VERIF, 'known_findings.json')))
+        known = [json.dumps(sc, sort_keys=True) for k in kf.get('known', []) for sc in k.get('replays', [])]
+        out = [sc for sc in out if json.dumps(sc, sort_keys=True) not in known]
+    except Exception:
+        pass
     return out
 
 
